@@ -41,6 +41,15 @@ def gen(tier, rng):
     for r in range(reps):
         yield "mq 2 300 m,r0.timed30,r1.pop,w29400,u", {"window": "unblock"}
         yield "mq 2 300 m,r0.timed20,r1.pop,w19400,u,u", {"window": "unblock2"}
+    # a timed receiver that keeps being woken for nothing (every unblock token is stolen at once by a
+    # non-blocking receive) must still return within 2T
+    for T, gap in ((100, 35), (60, 25)):
+        steps = []
+        k = 1
+        while k * gap < 12 * T:
+            steps.append("w%d,u,R1.try" % (k * gap * 1000))
+            k += 1
+        yield "mq 2 200 m,r0.timed%d,%s" % (T, ",".join(steps)), {"window": "woken-for-nothing"}
     for T in ([5, 50, 200] if tier == "quick" else [5, 50, 200, 1000]):
         for _ in range(3):
             yield "mq 1 300 r0.timed%d" % T, {"timed_alone": T}
